@@ -264,6 +264,101 @@ def cli_sweep(r, n_inputs):
     return stats
 
 
+def glue_differential(r, n_inputs):
+    """the command-line layer above the modelled functions: for every shipped method and randomly drawn options (keep-all, the two FDR
+    options, digestion parameters, identifier rule flags, warning suppression, with / without FASTA) the table the CLI writes must be
+    byte-identical to the table obtained by composing - in the harness, with the options placed by hand - the functions the models are
+    tied to: get_protein_annotations (C19), the digest map (C09), parse_evidence_files (C10), get_protein_group_results (Model/Pipeline.v)
+    and the minimal writer (C13). An option that reaches the wrong callee, is dropped, or is applied on one side of the glue only shows
+    up as a difference."""
+    import numpy as np
+    from picked_group_fdr import picked_group_fdr as pgf, methods as pgm, digest, entrapment, protein_annotation, writers
+    from picked_group_fdr.digestion_params import DigestionParams
+    from picked_group_fdr.parsers import evidence
+    rng = r.rng
+    names = shipped_methods()
+
+    def reference(files, kind, m, o, out):
+        np.random.seed(1)
+        fasta = [files["fasta"]] if o["fasta"] else None
+        ann, pseudo = protein_annotation.get_protein_annotations(fasta, o["decoys"], o["gene_level"], o["uniprot"])
+        mc = pgm.parse_method_toml(m, pseudo)
+        maps = [None]
+        if mc.grouping_strategy.needs_peptide_to_protein_map() or mc.score_type.remaps_peptides_to_proteins():
+            if not fasta:
+                raise ValueError("No fasta")
+            parse_id = digest.parse_until_first_space
+            if o["gene_level"] and not pseudo:
+                parse_id = protein_annotation.parse_gene_name_func
+            elif o["uniprot"]:
+                parse_id = protein_annotation.parse_uniprot_id
+            maps = []
+            for enzyme in o["enzymes"]:
+                maps.append(digest.get_peptide_to_protein_map_from_params(
+                    fasta, [DigestionParams(enzyme, "full", o["minl"], o["maxl"], o["cleav"], o["special"], o["decoys"])], parse_id=parse_id))
+                entrapment.mark_entrapment_proteins(maps[-1], None)
+        evs = [files[kind]] * len(o["enzymes"]) if len(o["enzymes"]) > 1 else [files[kind]]
+        pil = evidence.parse_evidence_files(evs, maps, mc.score_type, o["suppress"])
+        res = pgf.get_protein_group_results(pil, None, mc, None, o["keep_all"], o["thr"], o["psm"])
+        w = writers.MinimalProteinGroupsWriter(ann)
+        w.append_quant_columns(res, None, o["psm"])
+        w.write(res, out)
+
+    n = 0
+    for k in range(n_inputs):
+        d = tempfile.mkdtemp(prefix="c18g_", dir=core.scratch())
+        files, psms = make_inputs(d, rng)
+        if rng.random() < 0.6:
+            # records without a gene name: none, about half (pseudo-genes when more than half lack one) or most of them
+            share = rng.choice([0.0, 0.5, 0.8])
+            import re
+            lines = open(files["fasta"]).read().split("\n")
+            lines = [re.sub(r" GN=\S+", "", ln) if ln.startswith(">") and rng.random() < share else ln for ln in lines]
+            open(files["fasta"], "w").write("\n".join(lines))
+        for m in names:
+            mc = pgm.parse_method_toml(m, False)
+            kind = {"p": "Perc", "m": "MaxQuant", "f": "FragPipe", "s": "Sage", "d": "DIA-NN"}[mc.score_type.score_origin.short_description()]
+            rem = mc.grouping_strategy.needs_peptide_to_protein_map() or mc.score_type.remaps_peptides_to_proteins()
+            o = {"keep_all": rng.random() < 0.4, "thr": rng.choice([0.01, 0.3, 1.0]), "psm": rng.choice([0.01, 0.1, 0.5]),
+                 "enzymes": rng.choice([["trypsin"], ["trypsin"], ["trypsinp"], ["lys-c"], ["trypsin", "lys-c"]]),
+                 "cleav": rng.choice([2, 1, 0]), "minl": rng.choice([7, 6, 9]), "maxl": rng.choice([60, 40, 25]),
+                 "special": rng.choice(["KR", "none", "K"]), "suppress": rng.random() < 0.5, "fasta": rem or rng.random() < 0.5,
+                 "decoys": rng.random() < 0.2, "gene_level": rng.random() < 0.25, "uniprot": rng.random() < 0.3}
+            out, ref = os.path.join(d, f"cli_{m}.txt"), os.path.join(d, f"ref_{m}.txt")
+            evs = [files[kind]] * len(o["enzymes"])
+            argv = [FLAG[kind]] + evs + ["--methods", m, "--protein_groups_out", out, "--protein_group_fdr_threshold", str(o["thr"]),
+                                         "--psm_fdr_cutoff", str(o["psm"]), "--enzyme"] + o["enzymes"] + \
+                   ["--cleavages", str(o["cleav"]), "--min-length", str(o["minl"]), "--max-length", str(o["maxl"]), "--special-aas", o["special"]]
+            for flag, key in (("--keep_all_proteins", "keep_all"), ("--suppress_missing_peptide_warning", "suppress"),
+                              ("--fasta_contains_decoys", "decoys"), ("--gene_level", "gene_level"), ("--fasta_use_uniprot_id", "uniprot")):
+                if o[key]:
+                    argv.append(flag)
+            if o["fasta"]:
+                argv += ["--fasta", files["fasta"]]
+            e1 = e2 = None
+            try:
+                pgf.main(argv)
+            except BaseException as e:  # noqa
+                e1 = type(e).__name__
+            try:
+                reference(files, kind, m, o, ref)
+            except BaseException as e:  # noqa
+                e2 = type(e).__name__
+            n += 1
+            a = open(out, "rb").read() if os.path.exists(out) else None
+            b = open(ref, "rb").read() if os.path.exists(ref) else None
+            if a != b or e1 != e2:
+                r.violation("property-failure",
+                            {"suite": "glue_differential", "method": m, "options": o, "argv": argv, "fasta": open(files["fasta"]).read(),
+                             "evidence": open(files[kind]).read()[:4000], "cli_error": e1, "composition_error": e2,
+                             "cli_table": None if a is None else a.decode(errors="replace")[:3000],
+                             "composition_table": None if b is None else b.decode(errors="replace")[:3000]}, True,
+                            f"glue_differential: method {m} with options {o}: the table written by the command line differs from the "
+                            f"composition of the modelled functions (errors: {e1} / {e2})"[:600])
+                return n
+    return n
+
+
 def gen_table_matches(r):
     """the regenerated Coq table (Gen/Methods_gen.v) agrees with the objects the real parser builds"""
     from picked_group_fdr import methods as pgm
@@ -281,7 +376,8 @@ def run(r: core.Runner):
     r.assumptions += [
         "input with no group having any evidence peptide (tool dies in zip/array indexing) is outside the property's domain",
         "the in-process inference of every shipped method is tied to Model/Pipeline.v (oracles recorded); the CLI layer "
-        "(argument handling, parsing, writing) is exercised by subprocess runs and checked with the row-level monitor",
+        "(argument handling, parsing, writing) is exercised by subprocess runs and checked with the row-level monitor, and compared "
+        "byte for byte with the hand-placed composition of the modelled functions under randomly drawn options (glue_differential)",
     ]
     gen_table_matches(r)
     s = SUITES[0]
@@ -297,4 +393,5 @@ def run(r: core.Runner):
     r.run_suite(s)
     stats = cli_sweep(r, core.tier_n(r.tier, 2, 20))
     r.extra["cli_sweep"] = stats
-    r.traces = stats["completed"] + stats["refused_without_fasta"] + stats["skipped_wrong_input"]
+    stats["glue_differential_runs"] = glue_differential(r, core.tier_n(r.tier, 6, 60))
+    r.traces = stats["completed"] + stats["refused_without_fasta"] + stats["skipped_wrong_input"] + stats["glue_differential_runs"]
